@@ -606,6 +606,9 @@ class VariantBase(productmd.common.MetadataBase):
         if hasattr(self, "uid"):
             # detect Variant; we don't want to set parent for VariantBase or Variants
             variant.parent = self
+        elif isinstance(self, Variants):
+            # a top-level variant has no parent (a child offered here is validated as what it would become)
+            variant.parent = None
 
         variant.validate()
         variant_id = variant_id or variant.id
